@@ -198,10 +198,20 @@ Definition wf_msg (sch : schema) (b : bytes) : bool :=
 (* in addition [b] is byte for byte the canonical encoding of the fields it parses to (minimal
    varints); used by the correspondence check only: for such inputs re-marshalling the real
    decoder's result must give the located bytes back *)
-Definition canonical_msg (b : bytes) : bool :=
+Definition fld_default (bytes_fields : list N) (f : fld) : bool :=
+  match f with
+  | FV _ v => (v =? 0)%N
+  | FL n v => existsb (N.eqb n) bytes_fields && match v with [] => true | _ => false end
+  end.
+
+(* [bytes_fields]: numbers of scalar `bytes` fields, which the stable encoder omits when empty
+   (as it omits zero varints); empty embedded messages are emitted *)
+Definition canonical_msg (bytes_fields : list N) (b : bytes) : bool :=
   match parse_msg b with
   | None => false
-  | Some fs => bytes_eqb (enc_fields (map (to_fld b) fs)) b
+  | Some fs =>
+    let fl := map (to_fld b) fs in
+    bytes_eqb (enc_fields fl) b && negb (existsb (fld_default bytes_fields) fl)
   end.
 
 Definition field_of (b : bytes) (num : N) : option bytes :=
@@ -232,9 +242,11 @@ Definition wf_object (b : bytes) : bool :=
   && match field_of b fld_object_hdr with None => true | Some h => wf_header h end.
 
 Definition canonical_header (h : bytes) : bool :=
-  canonical_msg h && match field_of h fld_hdr_split with None => true | Some s => canonical_msg s end.
+  canonical_msg [] h
+  && match field_of h fld_hdr_split with None => true | Some s => canonical_msg [w_split_splitid] s end.
 Definition canonical_object (b : bytes) : bool :=
-  canonical_msg b && match field_of b fld_object_hdr with None => true | Some h => canonical_header h end.
+  canonical_msg [w_obj_payload] b
+  && match field_of b fld_object_hdr with None => true | Some h => canonical_header h end.
 
 (* ---- canonical encoder, record level (neofs-sdk-go proto/object/encoding.go) -------- *)
 
